@@ -2,6 +2,8 @@ package main
 
 import (
 	"fmt"
+	"go/types"
+	"reflect"
 	"strings"
 
 	"golang.org/x/tools/go/ssa"
@@ -556,4 +558,75 @@ func init() {
 		fail("encoding/json.Marshal of %v is not modelled (reflection)", v.t)
 		return false
 	}
+}
+
+// verifJSONTransparent(v) reports (from the static type, via go/types) whether
+// encoding/json saves and restores every data-carrying part of v's type: every struct field
+// must be exported and not tagged `json:"-"`; unexported or embedded fields are tolerated
+// only if they are synchronisation state (sync.Mutex / sync.RWMutex). This is the
+// structural precondition of modelling Marshal/Unmarshal as inverse functions (C11).
+func init() {
+	verifExtra["verifJSONTransparent"] = func(ex *Exec, st *State, fv FuncV, args []Value, res ssa.Value, at ssa.Instruction) bool {
+		v := args[0].(IfaceV)
+		if v.t == nil {
+			setRes(st, res, tFalse)
+			return true
+		}
+		why := jsonOpaqueReason(v.t, map[string]bool{})
+		if why != "" {
+			ex.note(st, "not JSON-transparent: "+why)
+			ex.Notes["not JSON-transparent: "+why]++
+		}
+		setRes(st, res, boolConst(why == ""))
+		return true
+	}
+}
+
+func jsonOpaqueReason(t types.Type, seen map[string]bool) string {
+	key := t.String()
+	if seen[key] {
+		return ""
+	}
+	seen[key] = true
+	switch u := t.Underlying().(type) {
+	case *types.Basic:
+		return ""
+	case *types.Pointer:
+		return jsonOpaqueReason(u.Elem(), seen)
+	case *types.Slice:
+		return jsonOpaqueReason(u.Elem(), seen)
+	case *types.Array:
+		return jsonOpaqueReason(u.Elem(), seen)
+	case *types.Map:
+		if r := jsonOpaqueReason(u.Key(), seen); r != "" {
+			return r
+		}
+		return jsonOpaqueReason(u.Elem(), seen)
+	case *types.Struct:
+		for i := 0; i < u.NumFields(); i++ {
+			f := u.Field(i)
+			ft := f.Type().String()
+			if ft == "sync.RWMutex" || ft == "sync.Mutex" {
+				continue
+			}
+			if !f.Exported() {
+				return "field " + f.Name() + " of " + t.String() + " is unexported and therefore not saved"
+			}
+			tag := reflectTag(u.Tag(i), "json")
+			if tag == "-" || strings.HasPrefix(tag, "-,") == false && tag == "-" {
+				return "field " + f.Name() + " of " + t.String() + " is tagged json:\"-\" and therefore not saved"
+			}
+			if r := jsonOpaqueReason(f.Type(), seen); r != "" {
+				return r
+			}
+		}
+		return ""
+	case *types.Interface:
+		return "interface-typed data in " + t.String() + " does not round-trip through JSON"
+	}
+	return "type " + t.String() + " is not handled by the JSON round-trip model"
+}
+
+func reflectTag(tag, key string) string {
+	return reflect.StructTag(tag).Get(key)
 }
